@@ -32,3 +32,24 @@ Theorem C09_step_frame_rep_orphans : forall w o x P,
   fget x (flat (wfile (fst (step w o)))) = fget x (flat (wfile w)).
 Proof. exact step_frame_rep_gen. Qed.
 Print Assumptions C09_step_frame_rep_orphans.
+
+(* hence at every state reached by a history without identifier re-use over a stale node (whatever the outcomes) *)
+Theorem C09_step_frame_run : forall ops o x, fresh_run ops init = true ->
+  let w := run ops init in
+  ~ In x (footprint_rep w o) ->
+  fget x (flat (wfile (fst (step w o)))) = fget x (flat (wfile w)).
+Proof. exact step_frame_run. Qed.
+Print Assumptions C09_step_frame_run.
+
+(* non-vacuity: in a reached state where the file represents the tree, a move leaves the stored nodes of the moved
+   subtree itself (here O3 and its data D4) outside the sharp footprint, and they exist in the file *)
+Example C09_nonvacuous :
+  let w := run (firstn 5 ops_demo) init in
+  Rep (wmem w) (wfile w) (wpend w) /\
+  footprint_rep w (Move (KO, 3%N) (KG, 2%N)) = [(KG, 1%N); (KG, 2%N)] /\
+  snd (step w (Move (KO, 3%N) (KG, 2%N))) = Done /\
+  fget (KD, 4%N) (flat (wfile w)) <> None /\ fget (KO, 3%N) (flat (wfile w)) <> None.
+Proof.
+  split; [apply (rep_run (firstn 5 ops_demo)); vm_compute; reflexivity|].
+  vm_compute. repeat split; discriminate.
+Qed.
